@@ -266,7 +266,8 @@ Section Json.
         else
           if int_digits_ok tok then
             let n := dec_val tok in
-            if n <? 2 ^ 64 then Some (VInt KU64 (Z.of_N n)) else None
+            if n <? 2 ^ 64 then Some (VInt KU64 (Z.of_N n))
+            else option_map VFloat (fparse tok)      (* beyond uint64: read as a float *)
           else as_float
     end.
 
